@@ -280,6 +280,14 @@ def main(argv=None):
             ki = match_known(c.fq, kind, clause)
             nat_hits = nat_fail_clauses.get(clause, []) if kind == "ensures" else (
                 nat_fail_clauses.get("raises", []) if kind == "raises" else [])
+            nat_clause = clause if kind == "ensures" else None
+            if not nat_hits and kind in ("inv-step", "inv-entry", "safe", "requires@call", "frame", "loop-source-stable"):
+                # an intermediate obligation fails: any native violation of this function's contract is the
+                # concrete witness (the postconditions are only proved *from* the invariants)
+                for cl_, hits_ in nat_fail_clauses.items():
+                    if cl_ != "requires-raised" and match_known(c.fq, "ensures", cl_) is None:
+                        nat_hits, nat_clause = hits_, (cl_ if cl_ != "raises" else None)
+                        break
             o = obs[0]
             if ki is not None:
                 used_known.add(ki)
@@ -293,7 +301,7 @@ def main(argv=None):
                 idx = nat_hits[0][0]
                 rpath += ".py"
                 native.write_replay(rpath, prop, o["id"], c.fq, c.spec_module, c.name, seed, idx,
-                                    [clause] if kind == "ensures" else None)
+                                    [nat_clause] if nat_clause else None)
                 lines.append(f"VIOLATION property={prop} replay={rpath}")
             else:
                 rpath += ".txt"
@@ -310,7 +318,8 @@ def main(argv=None):
                 continue
             if not clause_in_property(c, cl, "ensures", prop):
                 continue
-            sym_failed = any(k[1] == cl or (cl == "raises" and k[0] == "raises") for k in failing_clauses)
+            sym_failed = any(o_["status"] != "proved" and match_known(c.fq, o_["kind"], o_["clause"]) is None
+                             for o_ in rep["obligations"])
             if not sym_failed and match_known(c.fq, "ensures", cl) is None:
                 tool_errors.append(f"cross-check mismatch: {c.fq} clause {cl} fails natively (input #{hits[0][0]}: "
                                    f"{hits[0][1][:200]}) although every obligation of it was discharged")
